@@ -34,6 +34,8 @@ const (
 	DevOversizeRecord   // send the unit inside one record padded to Val bytes (> 2^14+2048 allowed)
 	DevWarnings         // send N warning alerts before the unit
 	DevEmptyRecord      // send an empty handshake record before the unit
+	DevLenField         // add Val to the N-th length/count field inside the message body (nothing else adjusted)
+	DevPlainFinished    // (on the ChangeCipherSpec unit) no ChangeCipherSpec and no key switch: Finished follows in plaintext; with Val=1 a handshake message of type Typ is sent in its place
 )
 
 // Dev is one deviation.
@@ -70,18 +72,19 @@ type Closer interface {
 
 // Conn is the record layer + handshake framing of a reference endpoint.
 type Conn struct {
-	RW         io.ReadWriter
-	In, Out    *Half
-	rbuf       []byte
-	hsbuf      []byte
-	Transcript []byte
-	Devs       []*Dev
-	sent       int    // outgoing unit counter
-	pending    []byte // DevCoalesce: bytes held back
-	RecVers    uint16
-	AlertsIn   [][2]byte
-	SentUnits  []string
-	closed     bool
+	RW            io.ReadWriter
+	In, Out       *Half
+	rbuf          []byte
+	hsbuf         []byte
+	Transcript    []byte
+	Devs          []*Dev
+	sent          int    // outgoing unit counter
+	pending       []byte // DevCoalesce: bytes held back
+	RecVers       uint16
+	AlertsIn      [][2]byte
+	PlainFinished bool // set by DevPlainFinished: the caller must not switch the outgoing keys
+	SentUnits     []string
+	closed        bool
 }
 
 // NewConn wraps a transport.
@@ -213,7 +216,7 @@ func (c *Conn) sendUnit(recType uint8, name string, plain []byte) error {
 		d.Changed = false
 	case DevRecordVersion:
 		d.Changed = uint16(d.Val) != c.RecVers
-	case DevReplaceType, DevTruncBody, DevTruncBodyKeepLen, DevSetByte, DevHsLen, DevReplaceBody:
+	case DevReplaceType, DevTruncBody, DevTruncBodyKeepLen, DevSetByte, DevHsLen, DevReplaceBody, DevLenField:
 		d.Changed = false // message-level deviation on a unit that is not a handshake message: not applicable
 	default:
 		d.Changed = true
@@ -240,6 +243,12 @@ func (c *Conn) sendUnit(recType uint8, name string, plain []byte) error {
 		if err := c.rawWrite(Record{Type: RecHandshake, Vers: c.RecVers}.Bytes()); err != nil {
 			return err
 		}
+	case DevPlainFinished:
+		c.PlainFinished = true
+		if d.Val != 0 {
+			return c.rawWrite(c.recordBytes(RecHandshake, c.RecVers, Handshake(d.Typ, nil), nil))
+		}
+		return nil
 	case DevCloseBefore:
 		c.closeTransport()
 		return ErrClosedByScript
@@ -317,9 +326,28 @@ func (c *Conn) WriteHandshake(typ uint8, body []byte) error {
 			wire[1], wire[2], wire[3] = byte(d.Val>>16), byte(d.Val>>8), byte(d.Val)
 		case DevReplaceBody:
 			wire = Handshake(typ, d.RecBody)
+		case DevLenField:
+			fields := LengthFields(typ, body)
+			if len(fields) > 0 {
+				f := fields[d.N%len(fields)]
+				b := append([]byte(nil), body...)
+				old := 0
+				for i := 0; i < f.Width; i++ {
+					old = old<<8 | int(b[f.Off+i])
+				}
+				nv := old + d.Val
+				if nv < 0 {
+					nv = 0
+				}
+				for i := f.Width - 1; i >= 0; i-- {
+					b[f.Off+i] = byte(nv)
+					nv >>= 8
+				}
+				wire = Handshake(typ, b)
+			}
 		}
 		switch d.Kind {
-		case DevReplaceType, DevTruncBody, DevSetByte, DevHsLen, DevReplaceBody:
+		case DevReplaceType, DevTruncBody, DevSetByte, DevHsLen, DevReplaceBody, DevLenField:
 			d.Fired = true
 			d.Changed = !bytes.Equal(wire, Handshake(typ, body))
 			c.sent++
@@ -554,8 +582,10 @@ func ClientHandshake(c *Conn, cfg *ClientCfg) (*Result, error) {
 		if err := c.WriteCCS(); err != nil {
 			return err
 		}
-		if err := c.switchKeys(res.Master, ch.Random, sh.Random, sh.Suite, true, true); err != nil {
-			return err
+		if !c.PlainFinished {
+			if err := c.switchKeys(res.Master, ch.Random, sh.Random, sh.Suite, true, true); err != nil {
+				return err
+			}
 		}
 		return c.WriteHandshake(HsFinished, FinishedData(res.Master, true, c.Transcript))
 	}
@@ -913,8 +943,10 @@ func ServerHandshake(c *Conn, cfg *ServerCfg) (*Result, error) {
 	if err := c.WriteCCS(); err != nil {
 		return res, err
 	}
-	if err := c.switchKeys(res.Master, ch.Random, sh.Random, suite, false, true); err != nil {
-		return res, err
+	if !c.PlainFinished {
+		if err := c.switchKeys(res.Master, ch.Random, sh.Random, suite, false, true); err != nil {
+			return res, err
+		}
 	}
 	if err := c.WriteHandshake(HsFinished, FinishedData(res.Master, false, c.Transcript)); err != nil {
 		return res, err
